@@ -23,6 +23,7 @@ def main():
     ap.add_argument("pid"); ap.add_argument("--src"); ap.add_argument("--inplace", action="store_true")
     ap.add_argument("--checks"); ap.add_argument("--tier", default="quick"); ap.add_argument("--name")
     ap.add_argument("--skip-confirm", action="store_true")
+    ap.add_argument("--confirm-only", action="store_true")
     a = ap.parse_args()
     name = a.name or a.pid
     dst = os.path.join(ROOT, "seeded", name)
@@ -42,6 +43,11 @@ def main():
             if os.path.isdir(demo):
                 sh(f"cp -r {demo}/. {wt}/")
             demo_cmd = meta.get("demo_cmd", "")
+            # sanitise: drop trailing parenthetical remarks and a leading `cp demo/… &&` (the demo files are
+            # already copied to their place in the worktree)
+            import re
+            demo_cmd = re.sub(r"\s+\((?:after|add|run|from)[^)]*\)\s*$", "", demo_cmd)
+            demo_cmd = re.sub(r"^\s*cp\s+demo/\S+\s+\S+\s*&&\s*", "", demo_cmd)
             rc0, out0 = sh(demo_cmd, cwd=wt, timeout=900) if demo_cmd else (None, "")
             rca, outa = sh(f"git apply {patch}", cwd=wt)
             rcb, outb = sh("go1.26.8 build ./... && go1.26.8 vet -tags verif ./pkg/edition/java/proxy/ >/dev/null 2>&1; go1.26.8 build -tags verif ./...", cwd=wt, timeout=900)
@@ -51,6 +57,14 @@ def main():
                               "demo_tail_with_patch": out1[-600:] if out1 else "", "build_tail": outb[-300:] if rcb else ""}
         finally:
             sh(f"git -C /repo worktree remove --force {wt}")
+    if a.confirm_only:
+        # merge the confirmation into the latest evaluation record
+        if meta.get("evaluations"):
+            meta["evaluations"][-1]["confirm"] = res["confirm"]
+        else:
+            meta.setdefault("evaluations", []).append(res)
+        json.dump(meta, open(meta_p, "w"), indent=1)
+        print(json.dumps(res["confirm"], indent=1)[:1500]); return
     # ---- 3. our checks
     checks = a.checks.split(",") if a.checks else [a.pid]
     outcomes = {}
